@@ -534,6 +534,36 @@ func c19(r *rt.Run) {
 			}
 		}
 	}
+	// (vi) long values: constants whose printed form is around and beyond the buffer sizes readers like (4096, 65536 is
+	// the documented line limit and stays out of scope), in the first / middle / last predicate of the file
+	for _, n := range []int{100, 4000, 4090, 4096, 4100, 5000, 9000, 40000} {
+		long := ast.String(strings.Repeat("x", n))
+		var elems []ast.Constant
+		for i := 0; i < n/4; i++ {
+			elems = append(elems, ast.Number(int64(100+i%900)))
+		}
+		longList := ast.List(elems)
+		for vi, v := range []ast.Constant{long, longList} {
+			for pos := 0; pos < 3; pos++ {
+				names := []string{"b", "m", "z"} // stores list predicates in their own order; every position is tried by renaming
+				var facts []ast.Atom
+				for k, nm := range names {
+					if k == pos {
+						facts = append(facts, ast.NewAtom(nm, ast.Number(1), v), ast.NewAtom(nm, ast.Number(2), ast.String("short")))
+					} else {
+						facts = append(facts, ast.NewAtom(nm, ast.Number(int64(k)), ast.String("s")), ast.NewAtom(nm, ast.Number(int64(k+5)), ast.Number(7)))
+					}
+				}
+				src := factstore.NewMultiIndexedArrayInMemoryStore()
+				for _, a := range facts {
+					src.Add(a)
+				}
+				for _, f := range formats {
+					c19Case(r, facts, src, "multiarray", f, (n+vi+pos)%2 == 0, fmt.Sprintf("long-value-%d", n), true)
+				}
+			}
+		}
+	}
 	// (iv) determinism: same set, every insertion order, every source store kind
 	one := ast.Number(1)
 	factSets := [][]ast.Atom{
@@ -589,5 +619,5 @@ func c19(r *rt.Run) {
 	r.Sample(map[string]any{"layout": "z/0 p/1 q/2 with 1,2,0 facts", "formats": formats})
 	r.Finish("(i) stores {p(c)} and {q(c,c'),q(c',c)} for every constant of the printable universe (all single-byte strings and bytes, names over every permitted character incl. %, boundary numbers/times/durations, floats, ~1700-5000 structured values); " +
 		"(ii) every ordered layout of 1-3 (thorough 4) predicates from z/0,y/0,p/1,q/2,r/3,p/2 (same symbol as p/1),e/1(empty but listed) with 0-2 facts each; formats plain/gzip/zstd, deterministic on/off; read back eagerly into 3 store kinds and lazily with every pattern query; " +
-		"(iii) hand-written headers listing empty zero-arity predicates; (iv) every insertion order of 3 fact sets into 4 store kinds written deterministically (byte equality); (v) wide predicates of arity 3, 64, 255, 256, 1023, 1024 (the documented limit) and 1025 (must be refused by the writer or round-trip) with 1-2 facts followed by two more predicates, all formats, deterministic on/off")
+		"(iii) hand-written headers listing empty zero-arity predicates; (iv) every insertion order of 3 fact sets into 4 store kinds written deterministically (byte equality); (vi) long values (strings and lists printing to 100..40000 bytes, around 4096) in the first / middle / last of three predicates; (v) wide predicates of arity 3, 64, 255, 256, 1023, 1024 (the documented limit) and 1025 (must be refused by the writer or round-trip) with 1-2 facts followed by two more predicates, all formats, deterministic on/off")
 }
